@@ -8,7 +8,7 @@ use serde_json::json;
 type P = POpen<u8, u8>;
 
 /// size of the largest identification class and whether anything was merged
-pub fn glue_stats(f: &P, g: &P) -> (usize, usize) {
+pub fn glue_stats<O: Lab, A: Lab>(f: &POpen<O, A>, g: &POpen<O, A>) -> (usize, usize) {
     let n = f.nodes.len();
     let pairs: Vec<(usize, usize)> = f.t.iter().zip(g.s.iter()).map(|(&a, &b)| (a, b + n)).collect();
     let (q, k) = classes(n + g.nodes.len(), &pairs);
@@ -20,6 +20,11 @@ pub fn glue_stats(f: &P, g: &P) -> (usize, usize) {
 }
 
 pub fn check_pair<B: StrictOps>(f: &P, g: &P, loc: &mut Local) {
+    check_pair_over::<B, u8, u8>(f, g, loc)
+}
+
+/// the same check at other label types (zero-sized labels, strings): composition is generic in the labels
+pub fn check_pair_over<B: StrictOps, O: Lab, A: Lab>(f: &POpen<O, A>, g: &POpen<O, A>, loc: &mut Local) {
     let expected = f.compose(g);
     let got = B::compose(f, g);
     loc.trans(1);
